@@ -1389,12 +1389,6 @@ func makeTaskForMesosResources(
 		return nil, nil
 	}
 
-	// Do not decline this offer
-	_, contains := offerIDsToDecline[offer.ID]
-	if contains {
-		delete(offerIDsToDecline, offer.ID)
-	}
-
 	// Build the O² process to run as a mesos.CommandInfo, which we'll then JSON-serialize
 	err := taskPtr.BuildTaskCommand(descriptor.TaskRole)
 	if err != nil {
@@ -1578,6 +1572,12 @@ func makeTaskForMesosResources(
 					Name:  "LD_LIBRARY_PATH",
 					Value: proto.String(ldLibPath),
 				})
+	}
+
+	// Do not decline this offer
+	_, contains := offerIDsToDecline[offer.ID]
+	if contains {
+		delete(offerIDsToDecline, offer.ID)
 	}
 
 	return taskPtr, &mesosTaskInfo
